@@ -401,6 +401,32 @@ pub fn exec(calls: &[Call], sources: &[Vec<u8>]) -> (Vec<Res>, Vec<u8>) {
     (out, sink.snapshot())
 }
 
+/// Open `base` for append and run the calls; the first result is that of `new_append`.
+pub fn exec_append(base: &[u8], calls: &[Call], sources: &[Vec<u8>]) -> (Vec<Res>, Vec<u8>) {
+    let sink = SharedBuf::new(base.to_vec());
+    let mut out = Vec::with_capacity(calls.len() + 1);
+    let opened = guard(|| ZipWriter::new_append(sink.clone()));
+    let mut w = match opened {
+        Ok(Ok(zw)) => {
+            out.push(Res::Ok(0));
+            W::from_writer(zw)
+        }
+        Ok(Err(e)) => {
+            out.push(Res::Err(e.to_string()));
+            return (out, sink.snapshot());
+        }
+        Err(p) => {
+            out.push(Res::Panic(p));
+            return (out, sink.snapshot());
+        }
+    };
+    for c in calls {
+        out.push(w.call(c, sources));
+    }
+    drop(w);
+    (out, sink.snapshot())
+}
+
 // ---------------------------------------------------------------------------------------------
 // reading everything through the seekable reader
 
